@@ -154,7 +154,7 @@ def fixed_points(ctx):
 
 # ------------------------------------------------------------------------------------- generated grammars
 
-TERMINALS = ['"x"', '"\\n"', '"["', '"|"', '/a+/', '/[\\/]/', '/"/', '"("', '/a\\//', '/\\//', '"/"']
+TERMINALS = ['"x"', '"\\n"', '"["', '"|"', '/a+/', '/[\\/]/', '/"/', '"("', '/a\\//', '/\\//', '"/"', '"\\times"', '"\\nx"']
 
 
 def exprs(depth: int, symbols, terms_cache={}):
